@@ -135,9 +135,11 @@ package raft
 //@   ensures lfirst(l) - 1 <= i && i <= llast(l) ==> (result <==> lterm(l, i) == term)
 //@   ensures (i < lfirst(l) - 1 || i > llast(l)) ==> (result <==> term == 0)
 
+//@ property C02 C01
 //@ func (l *raftLog) isUpToDate(lasti uint64, term uint64) bool
 //@   requires lOK(l)
 //@   ensures result <==> (term > lterm(l, llast(l)) || (term == lterm(l, llast(l)) && lasti >= llast(l)))
+//@ property C02
 
 // commit index only moves forward and never beyond the last entry
 //@ func (l *raftLog) commitTo(tocommit uint64)
@@ -550,7 +552,7 @@ package raft
 //@   ensures result && old(pr.State) != ProgressStateReplicate ==> pr.Next == max(min(rejected, last + 1), 1)
 //@   modifies pr.Next, pr.Paused
 
-//@ property C03
+//@ property C03 C02
 // ---- the persistent raft log (RocksStorage): an Append that reports success had no failed engine write ----
 // ghost(werrs, eng) counts engine writes that returned an error (interface contract of engine.KVEngine.Write)
 //@ noeffect (github.com/youzan/ZanRedisDB/engine.KVEngine).AddDeletedCnt
